@@ -192,10 +192,17 @@ fn run(args: &Args) {
                     } else {
                         setup.counterparty_selected_contest_delay = 3000;
                     }
+                    // half of them as the SetupChannel message to the channel handler of (peer, dbid),
+                    // whether or not the node has such a slot
+                    let wire = rng.chance(1, 2);
                     let r = catch_unwind(AssertUnwindSafe(|| {
-                        node.setup_channel(cid.clone(), None, setup, &DerivationPath::master()).is_ok()
+                        if wire {
+                            setup_channel_via_handler(&node, 6, peer, dbid, &setup)
+                        } else {
+                            node.setup_channel(cid.clone(), None, setup, &DerivationPath::master()).is_ok()
+                        }
                     }));
-                    (format!("ChannelRequest {}", dbid), json!(["setup_channel_refused_by_policy", dbid]), r.map_err(|_| ()))
+                    (format!("ChannelRequest {}", dbid), json!([if wire { "setup_channel_msg_refused_by_policy" } else { "setup_channel_refused_by_policy" }, dbid]), r.map_err(|_| ()))
                 }
                 4..=6 => {
                     let mut setup = make_test_channel_setup();
@@ -208,10 +215,16 @@ fn run(args: &Args) {
                     } else {
                         None
                     };
+                    // a message cannot carry a permanent id: those set-ups go to the node directly
+                    let wire = perm.is_none() && rng.chance(1, 2);
                     let r = catch_unwind(AssertUnwindSafe(|| {
-                        node.setup_channel(cid.clone(), perm, setup, &DerivationPath::master()).is_ok()
+                        if wire {
+                            setup_channel_via_handler(&node, 6, peer, dbid, &setup)
+                        } else {
+                            node.setup_channel(cid.clone(), perm, setup, &DerivationPath::master()).is_ok()
+                        }
                     }));
-                    (format!("SetupChannel {}", dbid), json!(["setup_channel", dbid]), r.map_err(|_| ()))
+                    (format!("SetupChannel {}", dbid), json!([if wire { "setup_channel_msg" } else { "setup_channel" }, dbid]), r.map_err(|_| ()))
                 }
                 7..=9 if rng.chance(1, 2) => {
                     use vls_protocol::msgs::{self, SerBolt};
